@@ -347,6 +347,10 @@ func c05Emit(ctx *Ctx, specs []*TableSpec, tags ...string) {
 
 func runC05(ctx *Ctx) {
 	r := ctx.R
+	if ctx.Idx%10 == 9 {
+		runC05CLI(ctx)
+		return
+	}
 	nCols := 2 + r.Intn(3)
 	var pk []int
 	switch r.Intn(10) {
@@ -427,6 +431,12 @@ func corpusC05(ctx *Ctx, op string, raw json.RawMessage) {
 	var in c05Input
 	if err := json.Unmarshal(raw, &in); err != nil {
 		panic(err)
+	}
+	if op == "merge-cli" {
+		if len(in.Specs) == 3 {
+			c05CLIEmit(ctx, in.Specs, "corpus")
+		}
+		return
 	}
 	if len(in.Specs) >= 3 {
 		c05Emit(ctx, in.Specs, "corpus")
